@@ -455,7 +455,10 @@ class StmtMixin:
                 if tag == "#mapvalues":
                     m = itv[1]
                     ks = self.set_iter(SV(ops.map_dom(m), Set(m.pt.args[0])), st, spec)
-                    return IterSpec(length=ks.length, elem=lambda k: SV(smt.Select(ops.map_val(m), ks.elem(k).term), m.pt.args[1]), facts=ks.facts)
+                    it = IterSpec(length=ks.length, elem=lambda k: SV(smt.Select(ops.map_val(m), ks.elem(k).term), m.pt.args[1]), facts=ks.facts)
+                    # the enumeration is an enumeration of the KEYS: invariants see it as <seq>_key(i) / <seq>_idx(key)
+                    it.idx_name, it.elem_pt, it.key_elem = ks.idx_name, ks.elem_pt, ks.elem
+                    return it
                 raise Unsupported(f"iteration over {tag}")
             return IterSpec(concrete=list(itv))
         if isinstance(itv, SV):
@@ -715,6 +718,9 @@ class StmtMixin:
                 return SV(self.ctx.app(idx, self.ops.term(x, want)), INT)
 
             st.env[name + "_idx"] = GhostFun(name + "_idx", idx_of)
+        ke = getattr(it, "key_elem", None)
+        if ke is not None:
+            st.env[name + "_key"] = GhostFun(name + "_key", lambda k: ke(self.ops.term(k, INT)))
 
     # ------------------------------------------------------------------ misc statements
     def st_Global(self, s, st):
